@@ -45,8 +45,10 @@ def parse_search(out):
             for kv in l.split():
                 k, v = kv.split("=")
                 res[k] = v
-        elif l.startswith("fault:") or l in ("nogame", "badargs", "badop"):
+        elif l.startswith("fault:") or l in ("badargs", "badop"):
             res["fault"] = l
+        elif l == "nogame":
+            res["nogame"] = True      # the position was refused by the reader: nothing to search
     return infos, res
 
 
@@ -75,6 +77,13 @@ def correspondence(rep, pid, cases, rust, lean, stats, only_ops=None):
         for oi, op in enumerate(case):
             if only_ops and op.split(" ")[0] not in only_ops:
                 continue
+            ra, la = rust[ci][oi], lean[ci][oi]
+            if pid not in ("C15",) and op == "obs" and ra and la and "|" in ra[0] and "|" in la[0] \
+                    and ra[0].split("|")[0] != la[0].split("|")[0]:
+                # the walk prefix led model and implementation to different positions: not this
+                # property's abstraction (C02 decides successors) — stop comparing this case
+                stats["cases_diverged_in_position"] += 1
+                break
             stats["ops_compared"] += 1
             if rust[ci][oi] != lean[ci][oi]:
                 bad += 1
@@ -147,6 +156,21 @@ def check_legality(rep, pid, tier_sizes, seed):
     cases.append(["ttnew", "new " + roots.START, "obs", "search 4 -1 0", "search 2 -1 0", "search 3 -1 0"])
     rep_game = "position startpos moves g1f3 g8f6 f3g1 f6g8 g1f3 g8f6 f3g1 f6g8"
     cases.append(["ttnew", rep_game, "obs", "search 3 -1 0"])
+    # a position with an en-passant square, then the same placement without it (and vice versa), sharing the table:
+    # a hash that forgets a feature makes the cached move of one the announced move of the other
+    for f in roots.EP:
+        parts = f.split()
+        twin = " ".join(parts[:3] + ["-"] + parts[4:])
+        for d1, d2 in ((4, 3), (3, 3), (3, 1)):
+            cases.append(["ttnew", "new " + f, "obs", "search %d -1 0" % d1, "new " + twin, "obs", "search %d -1 0" % d2])
+            cases.append(["ttnew", "new " + twin, "obs", "search %d -1 0" % d1, "new " + f, "obs", "search %d -1 0" % d2])
+    # search a position that contains a mating / stalemating move, play it, search the dead position with the same table
+    for f, mv in [("6k1/5ppp/8/8/8/8/8/R5K1 w - - 0 1", "a1a8"), ("7k/8/5K2/6Q1/8/8/8/8 w - - 0 1", "g5g6"),
+                  ("7k/5Q2/5K2/8/8/8/8/8 w - - 0 1", "f7g7"), ("4k3/8/4K3/8/8/8/8/R7 w - - 0 1", "a1a8"),
+                  ("k7/8/1K6/8/8/8/8/7R w - - 0 1", "h1h8")]:
+        for d in (3, 4):
+            cases.append(["ttnew", "new " + f, "obs", "search %d -1 0" % d, "playh " + mv, "obs",
+                          "search 1 -1 0", "search 2 -1 0", "search 3 -1 0", "search 5 -1 0"])
     cases += gen_histories(r, n, maxdepth, roots.ALL)
     stats, kinds = Counter(), Counter()
     rust, lean = run_pair(rep, cases)
@@ -170,6 +194,8 @@ def check_legality(rep, pid, tier_sizes, seed):
     for ci, oi, f4, infos, res in items:
         case = cases[ci]
         stats["searches"] += 1
+        if res.get("nogame"):
+            continue
         if "fault" in res or "bestmove" not in res:
             rep.violation("impl-vs-spec", f"search failed @ {f4}", f"{rust[ci][oi]}", replay_ops=case[: oi + 1])
             continue
@@ -254,6 +280,8 @@ def check_stop(rep, tier, seed):
             infos, res = parse_search(rust[ci][oi])
             stats["stop_points"] += 1
             n = op.split()[2]
+            if res.get("nogame"):
+                continue
             if "fault" in res or "bestmove" not in res:
                 rep.violation("impl-vs-spec", f"search failed @ {f4} `{op}`", f"{rust[ci][oi]}", replay_ops=case[: oi + 1])
                 continue
@@ -303,6 +331,8 @@ def check_depth_limit(rep, tier, seed):
             infos, res = parse_search(rust[ci][oi])
             stats["searches"] += 1
             a = op.split()
+            if res.get("nogame"):
+                continue
             if "fault" in res or "bestmove" not in res:
                 rep.violation("impl-vs-spec", f"search crashed: `{op}` @ {case[0]}", f"{rust[ci][oi]}", replay_ops=case[: oi + 1])
                 continue
@@ -423,6 +453,8 @@ def check_mates(rep, tier, seed):
         infos, res = parse_search(outs[3])
         stats["searches"] += 1
         kinds[kind] += 1
+        if res.get("nogame"):
+            continue
         if "fault" in res or "bestmove" not in res:
             rep.violation("impl-vs-spec", f"search failed @ {f}", f"{outs[3]}", replay_ops=case)
             continue
